@@ -33,7 +33,7 @@ CHECKS["C15"] = {
 
 CHECKS["C05"] = {
     "level": "exploration",
-    "technique": "property-based testing (rapid) with a trapdoor forger: equation-valid signatures for exponents of known class (prime/composite, inside/outside the interval) + single-component alterations; oracle = construction knowledge",
+    "technique": "property-based testing (rapid) with a trapdoor forger: equation-valid signatures for exponents of known class (prime/composite, inside/outside the interval) + single-component alterations; oracle = construction knowledge; every signature verified twice and all verdicts re-checked at the end of a case (state must not survive a verification); empty message blocks",
     "level_text": "Generated message blocks over boundary sizes are signed by the library and by a harness-side signer that knows p'q'; Verify must accept exactly honest, randomised and prime-inside-interval signatures and reject every equation-valid signature with a composite or out-of-interval exponent and every altered signature/block/key/keyshare contribution. Exploration: the input space is unbounded, classes at the interval boundaries are hit by construction.",
     "level_note": "Trusts math/big (ModInverse, Exp, ProbablyPrime for locating primes next to the interval ends); composites are composite by construction. Unforgeability without the private key is not testable and not claimed.",
     "rule": ("one case = key (toy Ln=320 / 1024 / 2048) x message block of 1..9 boundary-class entries; evaluations count every Verify verdict "
@@ -48,7 +48,7 @@ CHECKS["C05"] = {
 
 CHECKS["C01"] = {
     "level": "exploration",
-    "technique": "property-based testing (rapid) with an adversarial prover that knows all secrets and the group order (split attack, k*ord response shifts across the range boundary) + single/pairwise field alterations; oracle = ground truth of the signed values",
+    "technique": "property-based testing (rapid) with an adversarial prover that knows all secrets and the group order (split attack, k*ord response shifts across the range boundary) + single/pairwise field alterations; oracle = ground truth of the signed values; alterations also made in place on objects that were already verified; disclosed values shifted by multiples of the group exponent",
     "level_text": "For generated credentials and disclosure sets the harness presents honest proofs, null-deviation controls, every single and sampled pairwise alteration, equation-valid split forgeries and order-shifted responses to ProofD.Verify and ProofList.Verify; after ACCEPT the reported values must equal the signed exponents, indices must not be both disclosed and hidden, responses must be in range; honest, control and in-range-shifted proofs must be accepted. Soundness against arbitrary adversaries is only sampled through these families.",
     "level_note": "Trusts math/big and the harness's re-statement of the protocol equations (validated on every case by the accepted null-deviation control). Toy keys use Ln=320 instead of 256 so that messages stay below the group order.",
     "rule": ("one case = key x 1..6 attributes from boundary classes x disclosure set x session kind; evaluations = verdicts judged. "
@@ -78,7 +78,7 @@ CHECKS["C03"] = {
 
 CHECKS["C02"] = {
     "level": "fault_enumeration",
-    "technique": "metamorphic property-based testing: rapid-generated proof lists (1..4 builders, disclosure/issuance, non-revocation and range parts, 1..3 keys) x complete enumeration of session-tuple changes (bit flips of context/nonce, flag, all permutations, sub-lists, duplications, splices, key substitutions, empty lists); oracle = original accepted, every changed tuple rejected",
+    "technique": "metamorphic property-based testing: rapid-generated proof lists (1..4 builders, disclosure/issuance, non-revocation and range parts, 1..3 keys) x complete enumeration of session-tuple changes (bit flips of context/nonce, flag, all permutations, sub-lists, duplications, splices, key substitutions, empty lists); oracle = original accepted, every changed tuple rejected; one decoded list verified under generated sequences of tuples and keys (also another key with the same issuer/counter identifier), each verdict compared with that of a fresh object",
     "level_text": "For each generated honest list, every change of the enumerated fault set is applied one at a time and presented (decoded freshly from JSON) to ProofList.Verify / ProofD.Verify / ProofU.Verify; acceptance of any changed tuple is a violation, rejection of the original is a failed control.",
     "level_note": "Changes are guaranteed to differ from the original tuple (identity permutations, equal values and substitutions of unused key elements are excluded). Honest non-revocation proofs falling into the known C11 ambiguity class are excluded and counted.",
     "rule": ("case = one (proof list, changed tuple) presentation. Non-trivial: every presentation (the original and each changed tuple in which all individual proofs are well-formed); "
@@ -92,7 +92,7 @@ CHECKS["C02"] = {
 
 CHECKS["C08"] = {
     "level": "fault_enumeration",
-    "technique": "structure-aware JSON mutation of valid proof lists driven by rapid (shrinking) + hostile constants; native coverage-guided fuzzing of the decoders and of the mutator's choices in the thorough tier; oracle = no panic from any verification entry point, and ACCEPT only for documents semantically identical to the seed",
+    "technique": "structure-aware JSON mutation of valid proof lists driven by rapid (shrinking) + hostile constants; native coverage-guided fuzzing of the decoders and of the mutator's choices in the thorough tier; oracle = no panic from any verification entry point, and ACCEPT only for documents semantically identical to the seed; re-verification of the same decoded objects (also under keys with fewer bases); enumeration of single-member removals; sessions of a holder with secret 0 and randomiser 0, in which structural checks alone decide",
     "level_text": "Valid documents of every shape (disclosure, issuance, blind attributes, non-revocation, 3- and 4-square range proofs, mixed lists, IssueCommitmentMessage; keys with and without revocation material) are mutated by 1..3 structural operators (delete, null, re-key to boundary indices, swap/copy sub-trees, array surgery, retype, integer replacement) and presented to ProofList.Verify (with/without labels, with a key too few) and to each element's Verify. Panics are grouped by innermost gabi frame.",
     "level_note": "The l_d field of range proofs is excluded from the identity comparison (it only loosens size limits and is not bound by the challenge). Fuzzing campaigns are not seed-reproducible; the saved crasher is the replay unit.",
     "rule": ("case = one mutated document presented to all entry points. Non-trivial: mutated documents that still decode (reach verification); distinct by the mutated document's bytes; classes name the sub-tree hit (main, maps, nonrev, range, issuance)."),
@@ -124,7 +124,7 @@ CHECKS["C04"] = {
 
 CHECKS["C06"] = {
     "level": "fault_enumeration",
-    "technique": "property-based testing (rapid) over issuance configurations (attribute classes x blind subset x keyshare x witness x key size) with complete enumeration of single-field alterations and cross-run substitutions of the protocol messages; oracle = honest run yields a credential over exactly (secret, attributes, blind = sum of shares), every deviation makes the receiving call fail without producing a credential",
+    "technique": "property-based testing (rapid) over issuance configurations (attribute classes x blind subset x keyshare x witness x key size) with complete enumeration of single-field alterations and cross-run substitutions of the protocol messages; oracle = honest run yields a credential over exactly (secret, attributes, blind = sum of shares), every deviation makes the receiving call fail without producing a credential; every refused message object presented a second time; self-consistent forged witness under an accumulator not signed by the issuer",
     "level_text": "Each generated configuration is run honestly with every message passing through JSON, the outcome is compared with the ground truth, and then every listed single-field deviation of the commitment message (judged at the issuer's ProofList.Verify) and of the signature message / nonces / commitment (judged at the user's ConstructCredential) is applied one at a time; a panic counts as not rejected.",
     "level_note": "Reads the user's blind shares from the unexported CredentialBuilder.mUser (in-package test). Deviations that leave the proven statement unchanged (v + ord, in-range v' + ord) are expected to be accepted and are checked in that direction.",
     "rule": ("case = one protocol run or one deviation presented to its receiver. Non-trivial: every case (honest runs over generated configurations and deviations that leave every other field valid); "
@@ -138,7 +138,7 @@ CHECKS["C06"] = {
 
 CHECKS["C14"] = {
     "level": "fault_enumeration",
-    "technique": "property-based testing (rapid) over builder compositions (1..4 builders, 1..3 keys of 1024/2048 bits in any order, every participation pattern, non-revocation/range parts, both session kinds, arbitrary context) with complete enumeration of alterations of the keyshare response request relative to the commitment request; oracle = honest exchange completes with equal challenges and a verifying list for total secret, altered second message => error and no response",
+    "technique": "property-based testing (rapid) over builder compositions (1..4 builders, 1..3 keys of 1024/2048 bits in any order, every participation pattern, non-revocation/range parts, both session kinds, arbitrary context) with complete enumeration of alterations of the keyshare response request relative to the commitment request; oracle = honest exchange completes with equal challenges and a verifying list for total secret, altered second message => error and no response; keyshare key set holding other instances of the same keys",
     "level_text": "The user/server exchange is driven exactly as the API prescribes; ProofP.C must equal the user's challenge, the merged list must verify with the label vector and every secret-key response must equal (r_user + r_server) + c*(s_user + s_server). Each enumerated alteration of the second message (values, commitments incl. +k*N, other commitments, key ids, entries added/removed/reordered, commitment hash) must be refused.",
     "level_note": "Toy keys cannot take part (the server sizes its randomiser for 1024/2048-bit parameters only), so this check runs on 1024- and 2048-bit keys. Nonce and session flag are not committed to in the first message: changing them is not expected to be refused, only to yield a list that does not verify.",
     "rule": ("case = one exchange or one altered second message. Non-trivial: alterations that keep the message well-formed; honest compositions with >= 2 keys of which a strict subset participates, or with context != 1; "
@@ -168,7 +168,7 @@ CHECKS["C07"] = {
 CHECKS["C09"] = {
     "level": "exploration",
     "exhaustive_claim": True,
-    "technique": "bounded-exhaustive enumeration of revocation histories x update windows x application scripts (shared vs fresh update objects) plus rapid-generated longer histories, each step compared with an abstract model (witness index, revocation point, window bounds, signature time); validity checked against harness-computed accumulator values",
+    "technique": "bounded-exhaustive enumeration of revocation histories x update windows x application scripts (shared vs fresh update objects) plus rapid-generated longer histories, each step compared with an abstract model (witness index, revocation point, window bounds, signature time); validity checked against harness-computed accumulator values; receiver-assembled (prepended) updates applied to witnesses at every index, shared and as first user of a fresh object; generated search over every failure exit of Witness.Update",
     "level_text": "Every history up to the bound (each event revokes a fresh value or a not-yet-revoked earlier witness; one witness issued at every index), every contiguous window with the original and a re-signed accumulator, and every script up to the stated length is executed on fresh witness copies; after each step the returned error class, the witness index, its validity u^e = nu_idx (nu recomputed by the harness with the private key), immutability on failure and non-validity of revoked witnesses are checked. A separate generated search drives every failure exit of Witness.Update (gap, revoked value, issuer-signed accumulator value that does not belong to the events, witness damaged in storage) and demands an error and a bit-identical witness; and update messages assembled by the receiver with Update.Prepend (older events decoded from JSON/CBOR with and without a precomputed product, overlapping or adjacent) are applied to witnesses at every index against the same model.",
     "level_note": "Bounds: n<=3 events and all scripts<=2 steps (quick); n<=3 / scripts<=3 (third step thinned by half) and n=4 / scripts<=2 (second step thinned to a third) in thorough; random search n<=12, scripts<=10. Update objects are built in memory with already-verified accumulators (authenticity is C10's subject).",
     "rule": ("case = one application script on one history. Non-trivial: scripts in which a witness receives >= 2 applicable updates, or one update object serves witnesses at two different indices, or a revoked witness is updated across its revocation; distinct by (revocation targets, script)."),
@@ -184,7 +184,7 @@ CHECKS["C09"] = {
 CHECKS["C10"] = {
     "level": "fault_enumeration",
     "exhaustive_claim": True,
-    "technique": "differential testing against an independently written chain/signature verifier: complete enumeration of single corruptions (every field, every byte of parent hashes and of the signed accumulator, event deletion/duplication/insertion/swaps, accumulator substitutions) over chains and windows, three transports (memory, JSON, CBOR), plus rapid-sampled double corruptions; Hash.Equal and Update.Prepend checked as functions; native fuzzing of the decoders in the thorough tier",
+    "technique": "differential testing against an independently written chain/signature verifier: complete enumeration of single corruptions (every field, every byte of parent hashes and of the signed accumulator, event deletion/duplication/insertion/swaps, accumulator substitutions) over chains and windows, three transports (memory, JSON, CBOR), plus rapid-sampled double corruptions; Hash.Equal and Update.Prepend checked as functions; native fuzzing of the decoders in the thorough tier; enumeration of null/removed members at every position of the JSON and CBOR wire forms; decoded objects are verified themselves and presented twice",
     "level_text": "For every corrupted update the library (Update.Verify, Witness.Update, Update.Prepend) must succeed exactly when the reference verifier says the received data are an authentically signed accumulator for the receiver's key and a gap-free, correctly indexed hash chain ending in the signed event hash; on rejection the witness / update must equal its snapshot. Corruptions that leave an authentic message (re-signed accumulator, issuer-signed alternative chain, dropped leading events) are decided by the reference, not assumed invalid.",
     "level_note": "The reference uses fxamacker/cbor (third party) to open the signed tuple, crypto/ecdsa + encoding/asn1 for the signature, crypto/sha256 for event hashes; it shares no code with package revocation or signed.",
     "rule": ("case = one (chain length, window, corruption(s), transport) presented to the entry points. Non-trivial: corrupted updates that survive transport (decode) and reach a hash or signature comparison; distinct by (n, window, transport, corruption names)."),
@@ -217,7 +217,7 @@ CHECKS["C13"] = {
 CHECKS["C12"] = {
     "level": "exploration",
     "exhaustive_claim": False,
-    "technique": "bounded-exhaustive enumeration of proof descriptors x queried statements x attribute values against arbitrary-precision integer semantics (statement logic), plus property-based testing (rapid) of accepted disclosure proofs under transplant/alteration forgeries of their range proofs; oracle = integer truth of every statement the library reports or implies for the signed value, and placement of range proofs on hidden indices only",
+    "technique": "bounded-exhaustive enumeration of proof descriptors x queried statements x attribute values against arbitrary-precision integer semantics (statement logic), plus property-based testing (rapid) of accepted disclosure proofs under transplant/alteration forgeries of their range proofs; oracle = integer truth of every statement the library reports or implies for the signed value, and placement of range proofs on hidden indices only; harness-side range prover written from the relations (control: true statement accepted) with non-unit commitments, a factor that wraps a machine integer, and an own m-response; every presented object verified twice",
     "level_text": "Part A enumerates every descriptor (sign, squares, a, k) on an integer box, keeps those true for an attribute value m, and requires every ProvesStatement()==true query (incl. factors near 2^62..2^64 and unsupported signs) and the ProvenStatement() triple to be true for m. Part B proves generated true statements, requires false ones (bound beyond m by one) to be refused, then moves, duplicates, re-attaches and alters the carried range proofs; whenever verification ACCEPTS, every carried range proof must sit on a hidden index of that proof and its reported statement must hold for the signed attribute.",
     "level_note": "Soundness against provers that know the group order (wrap-around of the sum of squares on undersized toy groups) is outside the holder model and not attempted.",
     "rule": ("Part A case = (descriptor, attribute value, query) with ProvesStatement true, or (descriptor, attribute) for ProvenStatement; non-trivial = query differs from the descriptor. Part B case = one presented proof; non-trivial = accepted proofs with >= 1 range proof and every forgery; distinct by the tuple / (key, statements, forgery)."),
@@ -231,7 +231,7 @@ CHECKS["C12"] = {
 
 CHECKS["C11"] = {
     "level": "exploration",
-    "technique": "model-based stateful property testing (rapid state machine over {prepare cache, revoke other, revoke self, update witness, prove+verify, tampered witness}) + forgery enumeration on accepted proofs (alterations, accumulator substitution, transplants between credentials and proofs of one session) + boundary-directed generation for the verifier's revocation-attribute selection; oracle = model of (witness index, revocation point) and ground truth of the accumulator each proof was made against",
+    "technique": "model-based stateful property testing (rapid state machine over {prepare cache, revoke other, revoke self, update witness, prove+verify, tampered witness}) + forgery enumeration on accepted proofs (alterations, accumulator substitution, transplants between credentials and proofs of one session) + boundary-directed generation for the verifier's revocation-attribute selection; oracle = model of (witness index, revocation point) and ground truth of the accumulator each proof was made against; harness-side non-revocation prover written from the proof relations (control: valid witness accepted) run without a witness with non-unit commitments and against a holder-made accumulator, with re-verification",
     "level_text": "Every honest proof must verify and the accumulator (index, time, value) a verifier reads from the accepted proof must be the one the witness pointed to at proving time, also when a prepared commitment was refreshed after witness updates; a revoked credential must report ErrorRevoked when updated across its revocation, stay unchanged, and never have a proof accepted against an accumulator at or after its revocation; every enumerated forgery of an accepted proof must be rejected.",
     "level_note": "Soundness against an arbitrary prover holding a revoked witness is a cryptographic assumption and only sampled through the listed forgeries. The boundary test sets DisclosureProofBuilder.attrRandomizers in-package to a legal small draw.",
     "rule": ("case = one history, one forgery, or one boundary-directed proof (verified 16 times). Non-trivial: histories containing an accepted proof after a cache refresh or after revoke-self, every forgery, every boundary case; distinct by action sequence / forgery kind / randomiser."),
@@ -268,7 +268,7 @@ CHECKS["C19"] = {
 
 CHECKS["C16"] = {
     "level": "exploration",
-    "technique": "volume generation of issuer keys at toy lengths (sequential and 2..8 concurrent generations), each key judged by independently written predicates (math/big primality, Jacobi symbols, orders, congruences mod 8, consistency of derived values, revocation key pair), goroutine accounting after every batch, and direct stop scripts for the concurrent safe-prime generator",
+    "technique": "volume generation of issuer keys at toy lengths (sequential and 2..8 concurrent generations), each key judged by independently written predicates (math/big primality, Jacobi symbols, orders, congruences mod 8, consistency of derived values, revocation key pair), goroutine accounting after every batch, and direct stop scripts for the concurrent safe-prime generator; injected faults of the random source (fails once / from some read on): generation must return and leave no worker",
     "level_text": "Every generated key must satisfy all structural predicates of the property; after each batch the goroutine count must return to its baseline within 5 s (otherwise the goroutine profile is stored as the finding); GenerateConcurrent is stopped in five different ways at different moments and must leave no worker.",
     "level_note": "Schedules are whatever the Go scheduler produces (not seed-reproducible); generation that exceeds a generous time budget is reported as inconclusive, not as a violation. S generating QR_n is checked through its order; if S is not a generator (probability ~2^-(Ln/2)) subgroup membership is counted as undecided.",
     "rule": ("case = one generated key pair (fresh random object) or one stop script. Non-trivial: every case; distinct by modulus N / by (stop style, size, results read, repetition); classes by (Ln, parallelism)."),
@@ -300,7 +300,7 @@ CHECKS["C18"] = {
 
 CHECKS["C20"] = {
     "level": "exploration",
-    "technique": "stress scripts with seed-drawn plans run under the Go race detector over a grid of goroutine counts and GOMAXPROCS values; oracles = race reports whose stacks contain gabi frames (grouped by racing sites), sequential validity and randomiser-uniqueness of every concurrently produced proof/key, and an exact keystream-partition check of the counter-mode generator (every read = run of consecutive counters, runs disjoint, union = [0, final counter))",
+    "technique": "stress scripts with seed-drawn plans run under the Go race detector over a grid of goroutine counts and GOMAXPROCS values; oracles = race reports whose stacks contain gabi frames (grouped by racing sites), sequential validity and randomiser-uniqueness of every concurrently produced proof/key, and an exact keystream-partition check of the counter-mode generator (every read = run of consecutive counters, runs disjoint, union = [0, final counter)); white-box long-run test of the keystream counter (moved to just below 2^32 / 2^33 / 2^48)",
     "level_text": "Shared objects the library treats as shareable (one credential incl. first-time cache preparation, one public key and signed accumulator, the process-wide generator, parallel key generation and key-proof construction) are exercised concurrently; any race report involving library code, any invalid or repeated result and any keystream block handed out twice or skipped is a violation.",
     "level_note": "Schedules are sampled by the Go scheduler, not enumerated, and are not seed-reproducible: the plan and the race report are the replay artefacts. A race needing a rare interleaving can be missed.",
     "rule": ("case = one repetition of a stress script (plan drawn from the seed) at one (goroutines, GOMAXPROCS) point. Non-trivial: runs in which >= 2 goroutines overlapped on the shared object; distinct by (script, repetition, goroutines, GOMAXPROCS, seed)."),
@@ -316,7 +316,7 @@ CHECKS["C20"] = {
 
 CHECKS["C17"] = {
     "level": "fault_enumeration",
-    "technique": "property-based testing (rapid) of every key-proof component as a Fiat-Shamir round over generated operands with enumeration of leaf alterations of the proof's JSON (sampled when large, stratified by leaf kind) and honest-algorithm-on-false-witness provers; the four Gennaro proofs on generated good moduli and on moduli of every forbidden shape with factorisation-aware cheating provers that grind the challenge; whole proofs for fresh small keys with wrong statements and altered leaves",
+    "technique": "property-based testing (rapid) of every key-proof component as a Fiat-Shamir round over generated operands with enumeration of leaf alterations of the proof's JSON (sampled when large, stratified by leaf kind) and honest-algorithm-on-false-witness provers; the four Gennaro proofs on generated good moduli and on moduli of every forbidden shape with factorisation-aware cheating provers that grind the challenge; whole proofs for fresh small keys with wrong statements and altered leaves; factorisation-aware prover for N = (2p'+1)(4k+1) (side condition), false statements with operand commitments replaced by 0, a whole proof forged for N = (2r^3+1)(2q'+1) with a zero commitment (control: same prover convinces of a good key), the bases-are-squares component with 0..24 bases",
     "level_text": "Completeness: true statements proven honestly are accepted (also after JSON round trip). Binding: altering any leaf of a component proof, Gennaro proof or whole proof makes verification fail. Soundness is sampled: false statements proven with the honest algorithm, and bad moduli (p^2 q, p^3, p q r, p^2, factor < 1024, N != 5 mod 8, N != 1 mod 3) with best-effort cheating provers, must be rejected.",
     "level_note": "Weakest claim: soundness against arbitrary cheating provers cannot be established by testing; what is shown is completeness, binding of every component into the challenge, and rejection of the listed shapes under the listed strategies (up to a few thousand challenge grinding attempts). A whole proof costs 15-40 s, so only 1-2 keys per run.",
     "rule": ("case = one component round / altered leaf / false statement / bad modulus / whole-proof presentation. Non-trivial: all of these (honest rounds over generated operands, every altered leaf, every false or bad instance); distinct by (component, operands, leaf path, mode) / (shape, modulus); leaf kinds covered are listed in classes."),
